@@ -49,7 +49,7 @@ func TestC09_StorageLiabilitiesBacked(t *testing.T) {
 	grew := map[string]bool{}
 	caseReset["C09"] = func() { grew = map[string]bool{} }
 	ops := []string{"newAlloc2", "newAlloc2", "fillAlloc", "fillAlloc", "upload", "delete", "missThenPass", "missThenPass", "missThenPass", "repriceExtend", "repriceExtend", "replaceChallenged", "replaceChallenged",
-		"extend2", "extend2", "freeAlloc", "addAssigner", "readLock", "readRedeem2", "readRedeem2", "writeLock", "stake", "unstake", "unstake2", "collect", "collect2", "kill", "shutdown", "blockRewards2", "cancel", "finalize",
+		"extend2", "extend2", "extendBackdate", "freeAlloc", "addAssigner", "readLock", "readRedeem2", "readRedeem2", "writeLock", "stake", "unstake", "unstake2", "collect", "collect2", "kill", "shutdown", "blockRewards2", "cancel", "finalize",
 		"storageSettings", "blobberSettings2", "advance", "respond"}
 	runMachineOps(t, "C09", ops, storageDomain+" plus free-storage grants and read markers of several readers; oracle after every applied transaction: (liabilities after - liabilities before) <= (contract wallet after - before) + newly accrued block reward, where liabilities = all delegate stakes + unpaid rewards + write pools + challenge pools + read pools; non-trivial = history in which pools grew in >= 3 different kinds of transaction; distinct by history", 40, 90,
 		func(m *machine, txn *transaction.Transaction, o sim.Outcome, before *snapshot) error {
